@@ -106,6 +106,8 @@ def check(prog, rep):
 SQ = "aw_datastore/storages/sqlite.py"
 PW = "aw_datastore/storages/peewee.py"
 VARIANTS = [
+    {"name": "B one threshold attribute for both modes: 1 when not lazy, tested with >", "edits": [(SQ, "        self.enable_lazy_commit = enable_lazy_commit\n", "        self.enable_lazy_commit = enable_lazy_commit\n        self.commit_threshold = 50 if enable_lazy_commit else 1\n"), (SQ, "        if self.enable_lazy_commit:\n            self.num_uncommitted_statements += num_statements\n            if self.num_uncommitted_statements > 50:\n                self.commit()\n            if (datetime.now() - self.last_commit) > timedelta(seconds=10):\n                self.commit()\n        else:\n            self.commit()\n", "        self.num_uncommitted_statements += num_statements\n        if self.num_uncommitted_statements > self.commit_threshold:\n            self.commit()\n        elif (datetime.now() - self.last_commit) > timedelta(seconds=10):\n            self.commit()\n")], "expect": "COMMIT-C"},
+    {"name": "OK one threshold attribute for both modes: 0 when not lazy", "edits": [(SQ, "        self.enable_lazy_commit = enable_lazy_commit\n", "        self.enable_lazy_commit = enable_lazy_commit\n        self.commit_threshold = 50 if enable_lazy_commit else 0\n"), (SQ, "        if self.enable_lazy_commit:\n            self.num_uncommitted_statements += num_statements\n            if self.num_uncommitted_statements > 50:\n                self.commit()\n            if (datetime.now() - self.last_commit) > timedelta(seconds=10):\n                self.commit()\n        else:\n            self.commit()\n", "        self.num_uncommitted_statements += num_statements\n        if self.num_uncommitted_statements > self.commit_threshold:\n            self.commit()\n        elif (datetime.now() - self.last_commit) > timedelta(seconds=10):\n            self.commit()\n")], "expect": "ok"},
     ("B chunked bulk insert counts each chunk BEFORE writing it (last chunk never counted after it is written)", SQ, "        self.conn.executemany(query, event_rows)\n        self.conditional_commit(len(event_rows))\n", "        for i in range(0, len(event_rows), 100):\n            chunk = event_rows[i : i + 100]\n            self.conditional_commit(len(chunk))\n            self.conn.executemany(query, chunk)\n", "COMMIT-B"),
     ("OK chunked bulk insert, each chunk counted after it is written", SQ, "        self.conn.executemany(query, event_rows)\n        self.conditional_commit(len(event_rows))\n", "        for i in range(0, len(event_rows), 100):\n            chunk = event_rows[i : i + 100]\n            self.conn.executemany(query, chunk)\n            self.conditional_commit(len(chunk))\n", "ok"),
     ("B peewee replace = delete + insert (two commits)", PW, "        e = self._get_event(bucket_id, event_id)\n        e.timestamp = event.timestamp\n        e.duration = event.duration.total_seconds()\n        e.datastr = json.dumps(event.data)\n        e.save()\n        event.id = e.id\n        return event\n\n    def get_event", "        old = self._get_event(bucket_id, event_id)\n        old.delete_instance()\n        event.id = event_id\n        e = EventModel.from_event(self.bucket_keys[bucket_id], event)\n        e.save(force_insert=True)\n        return event\n\n    def get_event", "PW-ATOMIC"),
